@@ -201,6 +201,15 @@ def run_on(fb, chk, tag=""):
                   "address than the one it touches (pages at the end of the write can be missed)" % detail, f.loc())
     else:
         chk.anchor_missing("B2", tag + "BitmapMmapRegion::slice_at")
+    # the wrapper takes its lock in blocking mode: a `try_*` acquisition that gives up would drop the mark while the log
+    # is being swapped
+    for f in wrap:
+        tries = [c["name"] for bb, t, c in sites(f, name={"try_read", "try_write", "try_lock"})]
+        locks = [c["name"] for bb, t, c in sites(f, name={"read", "write", "lock"})]
+        if tries or locks:
+            chk.check(not tries, "B1", tag + "blocking-lock:" + f.name, "lock taken with %s" % sorted(set(locks)),
+                      "BitmapMmapRegion::%s acquires its lock with %s: when the lock is busy (a log swap in progress) the operation "
+                      "is silently skipped and the write is recorded in no log" % (f.name, sorted(set(tries))), f.loc())
     rp = [f for f in wrap if f.name == "replace" and (f.trait or "").endswith("BitmapReplace")]
     if len(rp) == 1:
         f = rp[0]
